@@ -30,7 +30,7 @@ def sizes_for(name, tier):
     if not ss:
         return []
     non_cubic = [s for s in ss if len(set(s)) > 1]
-    pick = [ss[0], ss[-1]] + non_cubic[-1:]
+    pick = [ss[0], ss[-1]] + [non_cubic[i] for i in sorted({0, len(non_cubic) // 3, (2 * len(non_cubic)) // 3, len(non_cubic) - 1})] if non_cubic else [ss[0], ss[-1]]
     if tier != 'quick' and DECODER_IS_SPECIFIC[0]:
         pick += ss[1::max(1, len(ss) // 4)]
     return list(dict.fromkeys(pick))
